@@ -173,10 +173,34 @@ def execute(sc, out):
 
         try:
             an0, base = fresh_compute()
-        except Exception as e:  # plan()/scheduler failures belong to C02-C04
+        except Exception as e:  # plan()/scheduler failures belong to C02-C04 ...
             out.discarded = "plan_failure"
             out.count("discarded_plan_failure")
             out.extra["discard_reason"] = f"{type(e).__name__}: {e}"[:200]
+            # ... but "repeated on the same analyzer" also covers a call that fails: the retry must fail the same way,
+            # it must not silently succeed from half-built cached state
+            try:
+                an_r = SC.build_analyzer(data.copy(), cfg)
+            except Exception:
+                return
+            outcomes = []
+            for attempt in range(3):
+                try:
+                    with base_clock.installed():
+                        if attempt == 1 and sc["ops"] and sc["ops"][0][0] == "single":
+                            try:
+                                an_r.compute_single_bin(0.1 * cfg["fs"], L=min(8, data.shape[-1]))
+                            except Exception:
+                                pass
+                        r_ = an_r.compute() if attempt != 1 else an_r.plan()
+                    outcomes.append(("ok", len(r_["f"]) if isinstance(r_, dict) else len(r_.f)))
+                except Exception as e2:
+                    outcomes.append(("raised", type(e2).__name__))
+            out.count("retry_after_failed_call")
+            if any(o[0] == "ok" for o in outcomes) and any(o[0] == "raised" for o in outcomes):
+                out.discarded = None
+                out.violate("failed_call_changes_on_retry", "op=plan/compute",
+                            f"a fresh analyzer fails ({out.extra['discard_reason']}), but repeated calls on one analyzer gave {outcomes}")
             return
         nf = len(base.f)
         base_raw = SS.raw_fields(base)
